@@ -14,7 +14,7 @@ COQ_DIR = os.path.join(VERIF, "coq")
 WORK = os.path.join(VERIF, "work")
 
 COQ_LOADPATH = []
-for d in ("Lib", "Gen", "Spec", "Model", "Proofs", "Properties", "Findings"):
+for d in ("Lib", "Gen", "Spec", "Model", "Proofs", "Properties"):
     COQ_LOADPATH += ["-Q", os.path.join(COQ_DIR, d), "Hera." + d]
 
 
